@@ -53,6 +53,24 @@ def run(F, R, tier):
         r1.site("IotaDID::parse calls %s" % sorted(L.short(x) for x in fns if "identity" in x))
         r1.require(ID + "::try_from_core" in fns and "identity_did::did::CoreDID::parse" in fns, (fn, "via-gate"), "IotaDID::parse does not go through CoreDID::parse and try_from_core")
         r1.require(any(f.endswith("to_lowercase") for f in fns), (fn, "lowercase"), "IotaDID::parse does not lower-case its input")
+        # on the decision table: whatever parse returns as Ok is try_from_core ✓ of CoreDID::parse ✓ of the *lower-cased whole input* —
+        # on every accepting path (a fast path that skips the folding for "already folded" input has to prove more than a rule can see)
+        tabp = SR.Table(F, fn, opaque=r"CoreDID::parse$|IotaDID::try_from_core$|to_lowercase$|to_ascii_lowercase$", rule=r1)
+        INP = SR.param(sym.param_name(F, fn, 0, "input"))
+
+        def folded(q):
+            for e in q.calls(r"IotaDID::try_from_core$"):
+                if not SR.pure(q.ret, e.result.t) and not SR.derives(q.ret, e.result.t):
+                    continue
+                for c in q.calls(r"CoreDID::parse$"):
+                    if q.succeeded(c) is True and SR.pure(e.args[0], ("payload", c.result.t, "Ok", 0)):
+                        lows = [l for l in q.calls(r"to_(ascii_)?lowercase$") if SR.pure(l.args[0], INP) and SR.pure(c.args[0], l.result.t)]
+                        if lows:
+                            return True
+            return False
+        SR.require_on_success(r1, tabp, "try_from_core(CoreDID::parse(lowercase(input))?)", folded, key=(fn, "lowercase", "path"),
+                              what="the result is try_from_core of CoreDID::parse ✓ applied to the lower-cased input")
+        r1.site("IotaDID::parse: %d accepting / %d rejecting path(s)" % (len(tabp.ok()), len(tabp.err())))
     for f_ in F.find(r"^<identity_iota_core::did::iota_did::IotaDID as core::(convert::TryFrom<.*>|str::traits::FromStr)>::(try_from|from_str)$"):
         hh = F.hir(f_)
         env = H.Env(hh)
@@ -279,8 +297,26 @@ def run(F, R, tier):
     for tr in ("core::cmp::PartialEq", "core::cmp::Eq", "core::cmp::PartialOrd", "core::cmp::Ord", "core::hash::Hash"):
         imps = [i for i in F.impls_of(tr, ID) if not i["trait"]["args"] or i["trait"]["args"] == [ID]]
         ok = len(imps) == 1 and imps[0]["derived"]
-        r3.site("impl %s for IotaDID derived: %s" % (tr.rsplit("::", 1)[-1], ok))
-        r3.require(ok, (ID, tr.rsplit("::", 1)[-1], "derived"), "%s for IotaDID is not the derived (field-wise) implementation" % tr.rsplit("::", 1)[-1])
+        tn = tr.rsplit("::", 1)[-1]
+        if not ok and len(imps) == 1 and tn in ("PartialEq", "Ord"):
+            # a hand-written impl: accepted when it is, on its decision table, the comparison of the one (normalised) field and nothing else
+            import sibling as SB
+            mfns = F.find(r"^<%s as %s(<.*>)?>::%s$" % (re.escape(ID), re.escape(tr), "eq" if tn == "PartialEq" else "cmp"))
+            mfn = mfns[0] if len(mfns) == 1 else None
+            if mfn is not None and F.hir(mfn) is not None:
+                def idv(p_):
+                    return sym.St(ID, {"0": sym.Sym(("param", p_ + "0"))})
+                pairs_ = [("0", ("param", "s0"), ("param", "o0"))]
+                before = len(r3.fails)
+                if tn == "PartialEq":
+                    ok = SB.check_eq(r3, mfn, SB.explore(F, mfn, [idv("s"), idv("o")], rule=r3), pairs_) and len(r3.fails) == before
+                else:
+                    ok = SB.check_cmp(r3, mfn, SB.explore(F, mfn, [idv("s"), idv("o")], opaque=r"Ord::cmp$|Ord>::cmp$", rule=r3), pairs_) and len(r3.fails) == before
+                r3.site("impl %s for IotaDID hand-written, compares exactly the CoreDID field: %s" % (tn, ok))
+                if ok:
+                    continue
+        r3.site("impl %s for IotaDID derived: %s" % (tn, ok))
+        r3.require(ok, (ID, tn, "derived"), "%s for IotaDID is neither the derived (field-wise) implementation nor a hand-written comparison of exactly the CoreDID field" % tn)
     a = F.ast_item(ID)
     if r3.anchor(a, ID + " (ast)"):
         attrs = " ".join(a["attrs"])
